@@ -27,7 +27,10 @@ def case(ctx, case):
 
     env.step = step
     sig = sig_of(cfg, via="policy", decode=case["decode"])
-    kw = dict(decode_type=case["decode"])
+    kw = dict(decode_type=case["decode"], **case.get("filt", {}))
+    if case.get("filt"):
+        sig["filter"] = "+".join(sorted(case["filt"]))
+        ctx.count("c02_policy_filtered_forwards")
     if case["decode"].startswith("multistart"):
         kw["num_starts"] = case.get("k", 3)
     try:
